@@ -295,6 +295,20 @@ def _final_ok(before, after, clean_after, what_prefix):
     return fails
 
 
+def _build_linked(scn, root, linked):
+    """L.build_project, then (linked = (target key, "symlink" | "hardlink")) that target's file moved to shared/ and the
+    path named made a link to it"""
+    proj = L.build_project(scn, root)
+    if linked:
+        p = proj["paths"][linked[0]]
+        if os.path.isfile(p) and not os.path.islink(p):
+            os.mkdir(os.path.join(root, "shared"))
+            real = os.path.join(root, "shared", os.path.basename(p))
+            os.rename(p, real)
+            (os.symlink if linked[1] == "symlink" else os.link)(real, p)
+    return proj
+
+
 def sync_fault_points(rng, n_scn):
     """for each scenario: the fault-free outcome with the I/O operations of every emit.file call logged, then one run
     per (target, operation index, k) and one per conversion error"""
@@ -303,11 +317,20 @@ def sync_fault_points(rng, n_scn):
         scn = L.gen_scenario(rng, runs=1)
         if not scn["targets"]:
             continue
+        # 1 scenario in 3 (drawn from a generator of its own): one target file that exists is reached through a link - the
+        # real file lives in shared/, the file named is a symbolic link or a second hard link to it.  Every name must hold
+        # the old or the complete new text under every fault
+        lrng = random.Random(scn["ir_seed"] * 43 + 7)
+        linkable = [k for k in sorted(scn["targets"]) if scn["targets"][k]["pre"] not in ("missing", "hardlink")
+                    and not scn["targets"][k].get("alias_truth")]
+        linked = (lrng.choice(linkable), lrng.choice(["symlink", "hardlink"])) if linkable and lrng.random() < 0.34 else None
+        if linked:
+            hist["target-reached-through-%s" % linked[1]] += 1
         # fault-free reference, logging the operations of each target's write
         root = tempfile.mkdtemp(prefix="doctrans-verif-c20.")
         oplogs = {}
         try:
-            proj = L.build_project(scn, root)
+            proj = _build_linked(scn, root, linked)
             before = L.snapshot(root)
             L.run_api(scn, proj["paths"], None)
             clean_after = L.snapshot(root)
@@ -318,7 +341,7 @@ def sync_fault_points(rng, n_scn):
                 continue
             root = tempfile.mkdtemp(prefix="doctrans-verif-c20.")
             try:
-                proj = L.build_project(scn, root)
+                proj = _build_linked(scn, root, linked)
                 fo = L.Fault(L.file_of(k, scn), None)
                 L.run_api(scn, proj["paths"], L.Recorder(), fo)
                 oplogs[k] = list(fo.ops)
@@ -331,7 +354,7 @@ def sync_fault_points(rng, n_scn):
         for kind, k, pt in plans:
             root = tempfile.mkdtemp(prefix="doctrans-verif-c20.")
             try:
-                proj = L.build_project(scn, root)
+                proj = _build_linked(scn, root, linked)
                 b4 = L.snapshot(root)
                 desc = None
                 if kind == "io":
@@ -362,7 +385,9 @@ def sync_fault_points(rng, n_scn):
                 continue
             evals += 1
             hist["%s:%s" % (kind, (fo.fired_op[0] + "-" + fo.fired_op[1]) if kind == "io" else "emit-raises")] += 1
-            case = {"scenario": scn, "fault": [kind, k, list(pt) if pt else None]}
+            case = {"scenario": scn, "fault": [kind, k, list(pt) if pt else None], "linked": list(linked) if linked else None}
+            if linked:
+                desc = "%s (%s is a %s to shared/%s)" % (desc, L.file_of(linked[0], scn), linked[1], L.file_of(linked[0], scn))
             if run["exception"] is None and kind == "io":
                 fails.append({"case": case, "what": "the injected I/O error (%s) was swallowed" % desc, "class": None})
             for w in _final_ok(b4, aft, clean_after, "sync with %s at %s" % (desc, k)):
@@ -374,10 +399,22 @@ def sync_properties_fault_points(rng):
     fails, evals = [], 0
     m = impl()
 
-    def run_once(fo, root):
+    def run_once(fo, root, link=None):
         inp, outp = os.path.join(root, "in.py"), os.path.join(root, "out.py")
         open(inp, "w").write("a: Literal['x', 'y'] = 'x'\n")
-        open(outp, "w").write("import os\n\n\ndef f(g: str = 'x', h=2):\n    return g\n")
+        real = outp
+        if link is not None:
+            # the file named is a link to the real file, which lives in another directory (pkg/out.py -> ../shared/out.py):
+            # a symbolic link (absolute or relative) or a second hard link
+            os.mkdir(os.path.join(root, "shared"))
+            real = os.path.join(root, "shared", "out.py")
+        open(real, "w").write("import os\n\n\ndef f(g: str = 'x', h=2):\n    return g\n")
+        if link == "symlink":
+            os.symlink(real, outp)
+        elif link == "symlink-relative":
+            os.symlink(os.path.join("shared", "out.py"), outp)
+        elif link == "hardlink":
+            os.link(real, outp)
         before = L.snapshot(root)
         orig_file = m.emit.file
 
@@ -398,29 +435,36 @@ def sync_properties_fault_points(rng):
             m.sync_properties.emit.file = orig_file
         return before, L.snapshot(root), exc
 
-    root = tempfile.mkdtemp(prefix="doctrans-verif-c20.")
-    try:
-        fo = L.Fault("out.py", None)
-        _, clean_after, _ = run_once(fo, root)
-        ops = list(fo.ops)
-    finally:
-        shutil.rmtree(root, ignore_errors=True)
-    for pt in L.fault_points(ops):
+    for link in SP_LINKS:
         root = tempfile.mkdtemp(prefix="doctrans-verif-c20.")
         try:
-            fo = L.Fault("out.py", pt[0], pt[1])
-            before, after, exc = run_once(fo, root)
+            fo = L.Fault("out.py", None)
+            _, clean_after, _ = run_once(fo, root, link)
+            ops = list(fo.ops)
         finally:
             shutil.rmtree(root, ignore_errors=True)
-        if not fo.fired:
-            continue
-        evals += 1
-        case = {"command": "sync_properties", "fault": list(pt)}
-        if exc is None:
-            fails.append({"case": case, "what": "the injected I/O error was swallowed", "class": None})
-        for w in _final_ok(before, after, clean_after, "sync_properties with %s" % (fo.fired_op,)):
-            fails.append({"case": case, "what": w, "class": None})
+        for pt in L.fault_points(ops):
+            root = tempfile.mkdtemp(prefix="doctrans-verif-c20.")
+            try:
+                fo = L.Fault("out.py", pt[0], pt[1])
+                before, after, exc = run_once(fo, root, link)
+            finally:
+                shutil.rmtree(root, ignore_errors=True)
+            if not fo.fired:
+                continue
+            evals += 1
+            case = {"command": "sync_properties", "fault": list(pt), "link": link}
+            where = "sync_properties%s with %s" % (" (out.py is a %s to shared/out.py)" % link if link else "", fo.fired_op)
+            if exc is None:
+                fails.append({"case": case, "what": "the injected I/O error was swallowed (%s)" % where, "class": None})
+            # every name - the link and the file it points to - holds the old or the complete new text
+            for w in _final_ok(before, after, clean_after, where):
+                fails.append({"case": case, "what": w, "class": None})
     return fails, evals
+
+
+# how the output file of sync_properties is reached: named directly | a symbolic link (absolute / relative) | a hard link
+SP_LINKS = [None, "symlink", "symlink-relative", "hardlink"]
 
 
 # ------------------------------------------------------------------ (i'') the sync_properties rows of the command-line table
